@@ -6,7 +6,7 @@
     application polls, future drops, driver polls with arbitrary event lists, closes, stream calls,
     handle clones and drops. [ok ls] excludes exactly the known class [stopped-after-reset]
     (a driver event [PResetAcked]), for which [C18_no_lost_wakeup_refuted] is the witness. *)
-From QV Require Import Lib.Tac Model.AsyncConn Proofs.AsyncConnInv Proofs.AsyncConnFacts Proofs.AsyncConnMain.
+From QV Require Import Lib.Tac Model.AsyncConn Proofs.AsyncConnInv Proofs.AsyncConnFacts Proofs.AsyncConnMain Proofs.AsyncConnIoError.
 From QV Require Import Model.AsyncEndpoint Proofs.AsyncEndpointProofs.
 
 (** * The inductive invariant holds in every reachable state (all schedules, unbounded) *)
@@ -160,6 +160,23 @@ Example C18_two_readers_one_waker_slot :
   let s2 := drv_event (register (register s0 1 (ORead 3)) 2 (ORead 3)) (PData 3 [7%Z] false) in
   pend s2 1 = Some (ORead 3) /\ cond s2 (ORead 3) = true /\ runnable s2 1 = false.
 Proof. exact two_readers_one_waker_slot. Qed.
+
+(** * the driver's exit on a socket error (finding fixed by /repo ade9d8a) *)
+Theorem C18_io_error_preserves_invariant : forall s, Inv s -> Inv (drv_io_error s).
+Proof. exact io_error_preserves_invariant. Qed.
+Print Assumptions C18_io_error_preserves_invariant.
+
+Theorem C18_io_error_wakes_everyone : forall ls, ok ls -> driver_alive (run ls) = true -> forall t o,
+  pend (drv_io_error (run ls)) t = Some o -> runnable (drv_io_error (run ls)) t = true.
+Proof. exact io_error_wakes_everyone. Qed.
+Print Assumptions C18_io_error_wakes_everyone.
+
+Theorem C18_io_error_unfixed_refuted : exists ls t o,
+  let s := drv_io_error_unfixed (run ls) in
+  pend s t = Some o /\ runnable s t = false /\ closed s = false /\ driver_alive s = false /\
+  (0 < nhandles s)%Z.
+Proof. exact io_error_unfixed_refuted. Qed.
+Print Assumptions C18_io_error_unfixed_refuted.
 
 (** * Endpoint half (Model/AsyncEndpoint.v): Accept, wait_idle, Endpoint::close, driver exit *)
 Local Open Scope nat_scope.
